@@ -798,6 +798,19 @@ def _truth(v):
     return v if isinstance(v, bool) else _const(v, "the truth value") != 0
 
 
+def _sym_uf2(f):
+    def g(a, b, out=None):
+        aa = a if isinstance(a, SymArr) else SymArr.of(a)
+        r = f(aa, b if not isinstance(b, (list, tuple)) else SymArr.of(b))
+        if out is None:
+            return r
+        if not isinstance(out, SymArr) or not isinstance(r, SymArr) or tuple(out.shape) != tuple(r.shape):
+            raise ValueError("non-broadcastable output operand")
+        out[tuple(slice(None) for _ in out.shape)] = r
+        return out
+    return g
+
+
 def _sym_where(cond, x=None, y=None):
     if (x is None) != (y is None):
         raise ValueError("either both or neither of x and y should be given")
@@ -1133,7 +1146,7 @@ def np_summaries():
         "np.empty_like": empty_like, "np.zeros_like": empty_like, "np.empty": lambda s_, *a, **k: SymArr.zeros(s_),
         "np.ones_like": lambda a, dtype=None, **k: _ones_like(a, dtype), "np.diag": diag, "np.outer": outer,
         "np.isin": isin,
-        "np.multiply": lambda a, b: SymArr.of(a) * b, "np.size": lambda a, *x: SymArr.of(a).size, "np.shape": lambda a: SymArr.of(a).shape,
+        "np.multiply": _sym_uf2(lambda x, y: x * y), "np.subtract": _sym_uf2(lambda x, y: x - y), "np.divide": _sym_uf2(lambda x, y: x / y), "np.size": lambda a, *x: SymArr.of(a).size, "np.shape": lambda a: SymArr.of(a).shape,
         "np.squeeze": lambda a: SymArr(tuple(x for x in SymArr.of(a).shape if x != 1), SymArr.of(a).flat),
         "np.take": _sym_take, "np.ndindex": _sym_ndindex,
         "np.arange": lambda *a, **k: SymArr.of(list(range(*[_as_int(x, 10 ** 9) if not isinstance(x, int) else x for x in a]))),
@@ -1144,7 +1157,7 @@ def np_summaries():
         "np.eye": lambda n, *a, **k: SymArr.eye(n), "np.identity": lambda n: SymArr.eye(n),
         "np.dot": dot, "np.tensordot": tensordot, "np.einsum": einsum, "np.kron": kron, "np.append": append, "np.bmat": bmat, "np.block": block, "np.transpose": lambda a: SymArr.of(a).T, "np.swapaxes": lambda a, i, j: SymArr.of(a).swapaxes(i, j),
         "np.ravel": lambda a, order="C": SymArr.of(a).ravel(order), "np.sort": sort, "np.copy": lambda a: SymArr.of(a).copy(),
-        "np.add": lambda a, b: SymArr.of(a) + b, "np.sum": lambda a, axis=None: SymArr.of(a).sum(axis),
+        "np.add": _sym_uf2(lambda x, y: x + y), "np.sum": lambda a, axis=None: SymArr.of(a).sum(axis),
         "scipy.sparse.kron": kron, "scipy.sparse.eye": lambda n, *a, **k: SymArr.eye(n), "scipy.linalg.block_diag": block_diag,
         "np.column_stack": lambda t: SymArr.of([SymArr.of(c).tolist() for c in t]).T,
         "np.insert": insert,
